@@ -236,8 +236,10 @@ func appliedEvents(cau chain.ApplyUpdate, walletAddress types.Address) (events [
 		fce := fced.V2FileContractElement.Move()
 
 		_, missed := fced.Resolution.(*types.V2FileContractExpiration)
-		if fce.V2FileContract.HostOutput.Address == walletAddress {
-			outputID := fce.ID.V2HostOutputID()
+		// NOTE: the payout addresses are taken from the created outputs, not from
+		// the contract: a renewal pays its final outputs to whatever addresses
+		// the renewal names
+		if outputID := fce.ID.V2HostOutputID(); siacoinElements[outputID].SiacoinOutput.Address == walletAddress {
 			sce, ok := siacoinElements[outputID]
 			if !ok {
 				panic("missing siacoin element")
@@ -253,8 +255,7 @@ func appliedEvents(cau chain.ApplyUpdate, walletAddress types.Address) (events [
 			}, sce.MaturityHeight)
 		}
 
-		if fce.V2FileContract.RenterOutput.Address == walletAddress {
-			outputID := fce.ID.V2RenterOutputID()
+		if outputID := fce.ID.V2RenterOutputID(); siacoinElements[outputID].SiacoinOutput.Address == walletAddress {
 			sce, ok := siacoinElements[outputID]
 			if !ok {
 				panic("missing siacoin element")
